@@ -6,8 +6,8 @@ import Hgxv.Model.C16
   `chain cfg fixed burn thins`                             -> yields `cfg|cfg|...` | `none`
         a step is `i,j,accept,pick...`; `burn` a `;`-list of steps; `thins` a `|`-list of such lists
   `dict degSeq`                                            -> `deg,node,node;...` in insertion order
-  `extract resid size fd fm picks`                         -> `hye resid exhausted unused` | `none`
-  `match degSeq dimSeq fd fm picks`                        -> `cfg flag resid unused` | `none`
+  `extract keys resid size fd fm picks`                    -> `hye keys resid exhausted unused` | `none`
+  `match degSeq dimSeq fd fm picks`                        -> `cfg flag keys resid unused` | `none`
         `dimSeq` is a `;`-list of `size,count`
   `output cfg weights labels|-`                            -> `w,node,...;...` | `none`
   `fromhyg labels edges burn thins weights`                -> `out|out|...` | `none`
@@ -51,18 +51,18 @@ def step (_ : Unit) : List String → Unit × String
     match nats? d with
     | some ds => ((), showNatss ((degToDict ds).map (fun p => p.1 :: p.2)))
     | none => ((), "bad-op")
-  | ["extract", r, sz, fd, fm, p] =>
-    match nats? r, nat? sz, flag? fd, flag? fm, natss? p with
-    | some resid, some size, some fd, some fm, some picks =>
-      match extractHye resid size fd fm picks with
-      | some o => ((), s!"{showNats (canon o.hye)} {showNats o.resid} {showBool o.exhausted} {o.picks.length}")
+  | ["extract", k, r, sz, fd, fm, p] =>
+    match nats? k, nats? r, nat? sz, flag? fd, flag? fm, natss? p with
+    | some keys, some resid, some size, some fd, some fm, some picks =>
+      match extractHye keys resid size fd fm picks with
+      | some o => ((), s!"{showNats (canon o.hye)} {showNats o.keys} {showNats o.resid} {showBool o.exhausted} {o.picks.length}")
       | none => ((), "none")
-    | _, _, _, _, _ => ((), "bad-op")
+    | _, _, _, _, _, _ => ((), "bad-op")
   | ["match", d, m, fd, fm, p] =>
     match nats? d, pairs? m, flag? fd, flag? fm, natss? p with
     | some degSeq, some dimSeq, some fd, some fm, some picks =>
       match matchSequences degSeq dimSeq fd fm picks with
-      | some st => ((), s!"{showCfg st.cfg} {showBool st.flag} {showNats st.resid} {st.picks.length}")
+      | some st => ((), s!"{showCfg st.cfg} {showBool st.flag} {showNats st.keys} {showNats st.resid} {st.picks.length}")
       | none => ((), "none")
     | _, _, _, _, _ => ((), "bad-op")
   | ["output", c, w, l] =>
